@@ -405,10 +405,13 @@ def check_repro(C, drv, gp, n, fitness, selected):
     C.case(key=('repro', tuple(fitness), tuple(selected)), nontrivial=len(selected) > 0, kind='reproduction')
 
 
-def check_repro_real_tournament(C, drv, n, fitness, n_repro):
+def check_repro_real_tournament(C, drv, n, fitness, n_repro, by_index=False):
     """`_reproduction` with the library's own tournament: the draws of `np.random.choice` are tapped, the winners
     follow from the definition (first holder of the minimum among the values drawn for the round), and the slots
-    overwritten must hold copies of exactly those winners"""
+    overwritten must hold copies of exactly those winners.
+    `by_index`: the uniform draw is made by the harness (an index, the element at that index handed back), so the
+    contestants of a round are known as individuals and not only through whatever value the code was handed: the
+    winner is the contestant whose fitness - as stored on its agent - is smallest"""
     L = lib.load()
     np = L['np']
     np.random.seed(C.rng.randrange(1 << 30))
@@ -421,13 +424,23 @@ def check_repro_real_tournament(C, drv, n, fitness, n_repro):
     draws = []
     orig = np.random.choice
 
+    picked = []
+
     def tapped(a, *args, **kw):
-        v = orig(a, *args, **kw)
+        if by_index and not args and not kw and len(a) == n:
+            j_ = int(np.random.randint(len(a)))
+            picked.append(j_)
+            v = a[j_] if isinstance(a, np.ndarray) else np.asarray(a)[j_]
+        else:
+            picked.append(None)
+            v = orig(a, *args, **kw)
         draws.append(v)
         return v
     np.random.choice = tapped
     gp2 = L['kinds']['GP'](hyperparams={'p_reproduction': min(1.0, (n_repro + 0.5) / n)})
     rp = dict(how='repro-real', fitness=list(fitness), n_repro=n_repro, seed=None)
+    if by_index:
+        rp['by_index'] = True
     try:
         st = np.random.get_state()
         gp2._reproduction(sp)
@@ -439,8 +452,12 @@ def check_repro_real_tournament(C, drv, n, fitness, n_repro):
     k = L['c'].TOURNAMENT_SIZE
     rounds = [draws[j:j + k] for j in range(0, len(draws), k)]
     sel = []
-    for r_ in rounds:
+    for q_, r_ in enumerate(rounds):
         m = min(r_)
+        who = picked[q_ * k:q_ * k + k]
+        if by_index and None not in who:
+            # (Python compares its ints and floats exactly)
+            m = min(fitness[j_] for j_ in who)
         sel.append(next(i for i, f in enumerate(fitness) if f == m))
     # replay the overwrite rule on the tags with the winners the definition gives
     work = list(fitness)
@@ -450,7 +467,7 @@ def check_repro_real_tournament(C, drv, n, fitness, n_repro):
         ttags[w] = ttags[s_]
         work[w] = 0
     got = [t.tag for t in sp.trees]
-    rp['draws'] = [float(d) for d in draws]
+    rp['draws'] = [int(d) if isinstance(d, (int, np.integer)) else float(d) for d in draws]
     if got != ttags or [a.tag for a in sp.agents] != got:
         C.issue('reproduction-copied-a-non-winner', 'oracle', rp, trees=got, agents=[a.tag for a in sp.agents], expected=ttags, winners=sel)
     C.case(key=('repro-real', tuple(fitness), tuple(sel)), nontrivial=len(sel) > 0, kind='reproduction-real-tournament')
@@ -567,6 +584,18 @@ def check(ctx):
                 base = [base[j0] + C.rng.choice([4e-11, 1e-12, 2.5e-16 * base[j0], -4e-11, 1e-9]) * (1 if i != j0 else 0) * C.rng.choice([1, 2, 3])
                         if C.rng.random() < 0.6 else b_ for i, b_ in enumerate(base)]
             check_repro_real_tournament(C, drv, n, base, C.rng.randint(1, max(1, n // 2)))
+        # … and on integer-valued fitness (an objective returning Python ints: counts, integer penalties plus a small
+        # integer cost): the values are exact and pairwise different although they lie beyond 2**53, closer together than
+        # neighbouring float64 values; the winner of a round is the contestant with the smallest fitness, exactly
+        for k in range(30 if ctx['tier'] == 'quick' else 300):
+            n = C.rng.randint(4, 10)
+            off = C.rng.choice([2 ** 53, 10 ** 17, 2 ** 60, 2 ** 62, 3 * 10 ** 18])
+            step = C.rng.choice([1, 1, 2, 3])
+            base = [off + step * v_ for v_ in C.rng.sample(range(0, 12), n)]
+            if k % 5 == 4:
+                # one exact tie among them
+                base[C.rng.randrange(1, n)] = base[0]
+            check_repro_real_tournament(C, drv, n, base, C.rng.randint(1, max(1, n // 2)), by_index=True)
     finally:
         drv.close()
     return C.result()
@@ -625,7 +654,8 @@ def replay(prop, payload):
         if payload['how'] == 'repro-real':
             # the tapped draws are part of the witness; re-run on the same fitness with fresh seeds until the rule fails
             for k in range(60):
-                check_repro_real_tournament(C, drv, len(payload['fitness']), payload['fitness'], payload['n_repro'])
+                check_repro_real_tournament(C, drv, len(payload['fitness']), payload['fitness'], payload['n_repro'],
+                                            by_index=bool(payload.get('by_index')))
                 if any(i['layer'] == 'oracle' for i in C.issues):
                     return True
             return False
